@@ -162,6 +162,45 @@ theorem mkLevel_freshEncOK {scheme : Scheme} {n : Nat} {qs : List Nat} {t : Nat}
   have e : 2 * γ * X + 2 * l.size * Q = 2 * γ * X + 2 * l.size * Q := rfl
   omega
 
+/-- the SHARP form of the BFV margin on the inputs: 2·t·(B+1) ≤ Q·(1 − 2^-53), written 2^54·t·(B+1) ≤ (2^53 − 1)·Q -/
+theorem mkLevel_freshEncOK_sharp {scheme : Scheme} {n : Nat} {qs : List Nat} {t : Nat} {l : Level}
+    (hl : Drv.Sch.mkLevel scheme n qs t = .ok l) (ht : t ≠ 0) {B : Nat} (h : 2^54 * (t * (B + 1)) ≤ (2^53 - 1) * Spec.prodL qs) :
+    FreshEncOK l B := by
+  obtain ⟨b1, b2, b3, b4, b5, b6, b7, b8, b9⟩ := mkLevel_ok hl
+  obtain ⟨_, _, _, _, h64, _, _, _⟩ := mkLevel_ok_inputs hl
+  have hg := c01q_mkLevel_gamma hl ht
+  have hsz : l.size ≤ 64 := by rw [← c01u_qvals_length b8]; exact h64
+  unfold FreshEncOK
+  rw [b8, b9]
+  generalize l.tool.gamma.value = γ at *
+  generalize Spec.prodL qs = Q at *
+  generalize t * (B + 1) = X at *
+  generalize l.size = k at *
+  have h' : 2^54 * X + Q ≤ 2^53 * Q := by
+    have e : (2^53 - 1) * Q + Q = 2^53 * Q := by
+      have : (2:Nat)^53 - 1 + 1 = 2^53 := by norm_num
+      calc (2^53 - 1) * Q + Q = (2^53 - 1 + 1) * Q := by ring
+        _ = 2^53 * Q := by rw [this]
+    omega
+  have h1 := Nat.mul_le_mul_left γ h'
+  have h2 : 2^54 * k * Q ≤ γ * Q := Nat.mul_le_mul_right Q (by
+    have : (2:Nat)^54 * 64 = 2^60 := by norm_num
+    have : 2^54 * k ≤ 2^54 * 64 := Nat.mul_le_mul_left _ hsz
+    omega)
+  have e1 : γ * (2^54 * X + Q) = 2^54 * (γ * X) + γ * Q := by ring
+  have e2 : γ * (2^53 * Q) = 2^53 * (γ * Q) := by ring
+  have e3 : 2^54 * k * Q = 2^54 * (k * Q) := by ring
+  have e4 : 2 * γ * X + 2 * k * Q = 2 * (γ * X) + 2 * (k * Q) := by ring
+  have e5 : Q * γ = γ * Q := by ring
+  rw [e1, e2] at h1
+  rw [e3] at h2
+  rw [e4, e5]
+  generalize γ * X = a at *
+  generalize γ * Q = b at *
+  generalize k * Q = c at *
+  norm_num at h1 h2 ⊢
+  omega
+
 /-- the BGV margin `FreshEncOKBgv` IS a condition on the inputs: 2·t·(B+1) < Q -/
 theorem mkLevel_freshEncOKBgv {scheme : Scheme} {n : Nat} {qs : List Nat} {t : Nat} {l : Level}
     (hl : Drv.Sch.mkLevel scheme n qs t = .ok l) {B : Nat} : FreshEncOKBgv l B ↔ 2 * (t * (B + 1)) < Spec.prodL qs := by
@@ -204,6 +243,18 @@ theorem drv_bfv_encrypt_decrypt_inputs {n t : Nat} {kqs : List Nat} {kl : Level}
       bfvEncrypt l cdp (Spec.prodL lqs % t) ((t + 1) / 2) mode plain = .ok ct ∧
       bfvDecrypt l sk ct = .ok (trimPlain (padPlain n plain)) :=
   drv_bfv_encrypt_decrypt hc hl ht hm hp hpm (mkLevel_freshEncOK hl ht hok)
+
+/-- V1 with the SHARP margin on the inputs: 2·t·(B+1) ≤ Q·(1 − 2^-53) -/
+theorem drv_bfv_encrypt_decrypt_inputs_sharp {n t : Nat} {kqs : List Nat} {kl : Level} {sk : Array Int} {pk0 pk1 : RnsPoly}
+    {lqs : List Nat} {l : Level} {mode : EncMode} {B : Nat}
+    (hc : DrvCtx .bfv n t kqs kl sk pk0 pk1) (hl : Drv.Sch.mkLevel .bfv n lqs t = .ok l) (ht : t ≠ 0)
+    (hm : DrvMode .bfv n t kqs sk pk0 pk1 lqs l mode B)
+    {plain : Poly} (hp : plain.size ≤ n) (hpm : ∀ i, i < plain.size → plain.getD i 0 < t)
+    (hok : 2^54 * (t * (B + 1)) ≤ (2^53 - 1) * Spec.prodL lqs) :
+    ∃ cdp ct, Drv.C01E.bfvConsts l lqs t = .ok cdp ∧
+      bfvEncrypt l cdp (Spec.prodL lqs % t) ((t + 1) / 2) mode plain = .ok ct ∧
+      bfvDecrypt l sk ct = .ok (trimPlain (padPlain n plain)) :=
+  drv_bfv_encrypt_decrypt hc hl ht hm hp hpm (mkLevel_freshEncOK_sharp hl ht hok)
 
 /-! ## V2: BGV -/
 
